@@ -281,6 +281,7 @@ class Buffer:
         # Each timestep we check the length - if something has been removed
         # from transfer, we update the data rate
 
+        in_flight = self.hot[b].observations['transfer']
         current_obs = self.hot[b].observation_for_transfer()
         # current_obs = self.hot.observations['transfer']
         self._data_left_to_transfer = current_obs.total_data_size
@@ -295,7 +296,7 @@ class Buffer:
             # constraints
             # TODO create an object method to update the hot buffer
             self.hot[b].observations['stored'].append(current_obs)
-            self.hot[b].observations['transfer'] = None
+            self.hot[b].observations['transfer'] = in_flight
             return False
         self._add_event(current_obs, "transfer", "started")
         while True:
@@ -368,6 +369,7 @@ class Buffer:
         # Each timestep we check the length - if something has been removed
         # from transfer, we update the data rate
 
+        in_flight = self.cold[b].observations['transfer']
         current_obs = self.cold[b].observation_for_transfer()
         # current_obs = self.hot.observations['transfer']
         data_left_to_transfer = current_obs.total_data_size
@@ -381,7 +383,7 @@ class Buffer:
             # constraints
             # TODO create an object method to update the hot buffer
             self.cold[b].observations['stored'].append(current_obs)
-            self.cold[b].observations['transfer'] = None
+            self.cold[b].observations['transfer'] = in_flight
             return False
         self._add_event(current_obs, "transfer", "started")
         while True:
